@@ -188,3 +188,101 @@ func genC16Overlap(seed uint64) Plan {
 	}
 	return p
 }
+
+// execC16Foreign: the backend already holds an item that was written with another chunk
+// size (another slab configuration, another version). Reading it works; what the
+// handler writes when the item is appended / prepended to must again have the size
+// that this key's length dictates.
+func execC16Foreign(t *testing.T, p Plan, src kernel.Source) Result {
+	return inBubble(t, p.Seed, src, func(w *kernel.World, res *Result) {
+		tier := w.AddTier("l1", "/sim/chunked.sock")
+		tier.Fake.Limits = false
+		tier.Fake.LogLimit = 1 << 20
+		mon := &chunkMon{chunkLens: map[string]int{}}
+		tier.Fake.OnRequest = mon.onRequest
+		h := chunked.NewHandler(w.DialBackend("l1", "h0"))
+		key := strings.Repeat("f", int(p.X["keylen"]))
+		full := int(p.X["foreign_full"]) // value length of the foreign data entries
+		pay := full - 16
+		value := bytes.Repeat([]byte("0123456789"), int(p.X["vlen"])/10)
+		token := []byte("FOREIGN-TOKEN-16")
+		n := (len(value) + pay - 1) / pay
+		meta := make([]byte, 40)
+		binary.BigEndian.PutUint32(meta[0:], uint32(len(value)))
+		binary.BigEndian.PutUint32(meta[4:], 5)
+		binary.BigEndian.PutUint32(meta[8:], uint32(n))
+		binary.BigEndian.PutUint32(meta[12:], uint32(pay))
+		binary.BigEndian.PutUint32(meta[16:], uint32(w.Now()))
+		copy(meta[24:], token)
+		st := tier.Fake.Store
+		st.Set(key+"-meta", meta, 5, 0)
+		for i := 0; i < n; i++ {
+			chunk := make([]byte, full)
+			copy(chunk, token)
+			end := (i + 1) * pay
+			if end > len(value) {
+				end = len(value)
+			}
+			copy(chunk[16:], value[i*pay:end])
+			st.Set(fmt.Sprintf("%s-%d", key, i), chunk, 5, 0)
+		}
+		viol := func(rule, format string, a ...interface{}) {
+			if res.V == nil {
+				res.V = &Violation{Prop: "C16", Rule: rule, Class: rule + ":foreign", Msg: fmt.Sprintf(format, a...)}
+			}
+		}
+		where := fmt.Sprintf("item of %d bytes under a %d-byte key stored beforehand with %d-byte data entries (this key's length dictates %d)", len(value), len(key), full, slabBudget-71-len(key))
+		want := append([]byte{}, value...)
+		for i, op := range []wire.Op{
+			{Kind: "get", Keys: []string{key}, Quiets: []bool{false}, Opaque: 1},
+			{Kind: pickKind(p.X["prepend"]), Key: key, Data: []byte("<<extra>>"), Opaque: 2},
+			{Kind: "get", Keys: []string{key}, Quiets: []bool{false}, Opaque: 3},
+			{Kind: "append", Key: key, Data: []byte("!"), Opaque: 4},
+			{Kind: "get", Keys: []string{key}, Quiets: []bool{false}, Opaque: 5},
+		} {
+			r, ok := runTask(w, h, op, false)
+			if !ok || r.Panic != "" || r.Err != nil {
+				viol("failed", "%s: step %d %s did not succeed: ok=%v %s", where, i, op.Kind, ok, r)
+				return
+			}
+			if mon.viol != "" {
+				viol("slab", "%s; then %s: %s", where, op.Kind, mon.viol)
+				return
+			}
+			switch op.Kind {
+			case "append":
+				want = append(want, op.Data...)
+			case "prepend":
+				want = append(append([]byte{}, op.Data...), want...)
+			case "get":
+				if len(r.Hits) != 1 || !bytes.Equal(r.Hits[0].Data, want) {
+					viol("value", "%s: step %d get returned %d hits / a value that differs from what is stored", where, i, len(r.Hits))
+					return
+				}
+			}
+		}
+		// after the rewrites the metadata records this key's own payload size and chunk count
+		m := st.Peek(key + "-meta")
+		if m == nil || len(m.Value) != 40 {
+			viol("meta_size", "%s: no 40-byte metadata entry after the rewrites", where)
+			return
+		}
+		own := payloadFor(len(key))
+		if cs := int(binary.BigEndian.Uint32(m.Value[12:16])); cs != own {
+			viol("chunk_size", "%s: after append / prepend the metadata records chunk size %d, the key length dictates %d", where, cs, own)
+			return
+		}
+		if nc, wantN := int(binary.BigEndian.Uint32(m.Value[8:12])), (len(want)+own-1)/own; nc != wantN {
+			viol("chunk_count", "%s: after append / prepend the metadata records %d chunks for %d bytes, want %d", where, nc, len(want), wantN)
+			return
+		}
+		res.probe("foreign_layout_rewrites")
+	})
+}
+
+func pickKind(prepend int64) string {
+	if prepend != 0 {
+		return "prepend"
+	}
+	return "append"
+}
